@@ -120,7 +120,7 @@ def run_property(pid, tier, seed, jobs):
         obligations += obs
         assumptions += ass
         extra.update(ex)
-    if pid in ("C07", "C04", "C01", "C13", "C05", "C11", "C06", "C14", "C17", "C03", "C08", "C09", "C12", "C15", "C16", "C02"):
+    if pid in ("C07", "C04", "C01", "C13", "C05", "C11", "C06", "C14", "C17", "C03", "C08", "C09", "C12", "C15", "C16", "C02", "C10"):
         try:
             import mirx_props
         except ImportError:
